@@ -23,13 +23,35 @@ Inductive stree :=
 | SPost (t : token) (x : stree)              (* postfix operator *)
 | SBin (t : token) (l r : stree)             (* infix operator *)
 | SParen (x : stree)                         (* ( x ) *)
-| SIte (kw : token) (a b c : stree).         (* ite ( a , b , c ) *)
+| SIte (kw : token) (a b c : stree)          (* ite ( a , b , c ) *)
+| SIf (a b c : stree)                        (* IF a THEN b ELSE c *)
+| SQuant (kw : token) (vars : list (string * option token)) (body : stree).
+                                             (* \A x, y' : body  (kw = \A or \E;
+                                                a variable may carry a postfix
+                                                operator token) *)
 
 Definition LPt := Tok "LPAREN" "(".
 Definition RPt := Tok "RPAREN" ")".
 Definition CMt := Tok "COMMA" ",".
 Definition MINUSt := Tok "MINUS" "-".
 Definition DQt := Tok "DQUOTES" """".
+Definition IFt := Tok "IF" "IF".
+Definition THENt := Tok "THEN" "THEN".
+Definition ELSEt := Tok "ELSE" "ELSE".
+Definition COLONt := Tok "COLON" ":".
+
+Definition var_toks (v : string * option token) : list token :=
+  match snd v with
+  | None => [Tok "NAME" (fst v)]
+  | Some t => [Tok "NAME" (fst v); t]
+  end.
+(* x, y', z *)
+Fixpoint vars_toks (vs : list (string * option token)) : list token :=
+  match vs with
+  | [] => []
+  | [v] => var_toks v
+  | v :: r => (var_toks v ++ Tok "COMMA" "," :: vars_toks r)%list
+  end.
 
 Definition num_toks (n : numlit) : list token :=
   match n with
@@ -71,10 +93,27 @@ Fixpoint yield (s : stree) : list token :=
   | SParen x => LPt :: yield x ++ [RPt]
   | SIte kw a b c =>
       kw :: LPt :: yield a ++ CMt :: yield b ++ CMt :: yield c ++ [RPt]
+  | SIf a b c => IFt :: yield a ++ THENt :: yield b ++ ELSEt :: yield c
+  | SQuant kw vs body => kw :: vars_toks vs ++ COLONt :: yield body
   end.
 
 Section Spec.
 Variable T : ptable.
+
+Definition var_tree (v : string * option token) : tree :=
+  match snd v with
+  | None => Term KVar (fst v)
+  | Some t =>
+      match pt_post T (tty t) with
+      | Some (_, _, name) => Un name (Term KVar (fst v))
+      | None => Un (tval t) (Term KVar (fst v))
+      end
+  end.
+Definition var_wf (v : string * option token) : Prop :=
+  match snd v with
+  | None => True
+  | Some t => pt_bin T (tty t) = None /\ pt_post T (tty t) <> None
+  end.
 
 (* the syntax tree a surface tree denotes *)
 Fixpoint erase (s : stree) : tree :=
@@ -93,6 +132,9 @@ Fixpoint erase (s : stree) : tree :=
       end
   | SParen x => erase x
   | SIte kw a b c => Opr (tval kw) [erase a; erase b; erase c]
+  | SIf a b c => Opr "ite" [erase a; erase b; erase c]
+  | SQuant kw vs body =>
+      Opr (tval kw) [Opr "params" (map var_tree vs); erase body]
   end.
 
 Definition atom_wf (a : atom) : Prop :=
@@ -111,6 +153,10 @@ Fixpoint wf (s : stree) : Prop :=
   | SBin t l r => pt_bin T (tty t) <> None /\ wf l /\ wf r
   | SParen x => wf x
   | SIte kw a b c => tty kw = "ITE" /\ wf a /\ wf b /\ wf c
+  | SIf a b c => wf a /\ wf b /\ wf c
+  | SQuant kw vs body =>
+      (tty kw = "FORALL" \/ tty kw = "EXISTS") /\ vs <> [] /\ Forall var_wf vs
+      /\ wf body
   end.
 
 (* binding strengths.  lbp: what an operator needs from the context to be
@@ -164,6 +210,8 @@ Fixpoint rok (o : option token) (s : stree) : Prop :=
   | SBin t l r => stops (bin_rbp t) o /\ rok o r
   | SPre t x => stops (pre_pbp t) o /\ rok o x
   | SAtom a => atom_rok o a
+  | SIf _ _ c => stops (bind_of (pt_rule T "IF_THEN_ELSE")) o /\ rok o c
+  | SQuant _ _ body => stops (bind_of (pt_rule T "COLON")) o /\ rok o body
   | SPost _ _ | SParen _ | SIte _ _ _ _ => True
   end.
 
@@ -186,6 +234,10 @@ Fixpoint respects (s : stree) : Prop :=
       respects l /\ respects r /\ rok (Some t) l /\ fits (bin_rbp t) r
   | SParen x => respects x
   | SIte _ a b c => respects a /\ respects b /\ respects c
+  | SIf a b c =>
+      respects a /\ respects b /\ respects c
+      /\ fits (bind_of (pt_rule T "IF_THEN_ELSE")) c
+  | SQuant _ _ body => respects body /\ fits (bind_of (pt_rule T "COLON")) body
   end.
 
 Fixpoint cost (s : stree) : nat :=
@@ -196,6 +248,8 @@ Fixpoint cost (s : stree) : nat :=
   | SBin _ l r => cost l + cost r + 2
   | SParen x => cost x + 3
   | SIte _ a b c => cost a + cost b + cost c + 5
+  | SIf a b c => cost a + cost b + cost c + 5
+  | SQuant _ vs body => List.length vs + cost body + 6
   end.
 
 (* side conditions on the table: the keywords that start an operand are not
@@ -205,7 +259,7 @@ Definition nud_keywords : list string :=
    "FORALL"; "EXISTS"; "AT"; "MINUS";
    "VARIABLE"; "VARIABLES"; "CONSTANT"; "CONSTANTS"].
 Definition non_operators : list string :=
-  ["RPAREN"; "COMMA"; "DOTS"; "DEF"].
+  ["RPAREN"; "COMMA"; "DOTS"; "DEF"; "THEN"; "ELSE"; "COLON"].
 Definition is_none {A} (o : option A) : bool :=
   match o with None => true | Some _ => false end.
 Definition table_ok : bool :=
